@@ -529,6 +529,51 @@ fn main() {
                         });
                     }
                 }
+                // worker connector phase: tako's connect_to_server_and_authenticate against a
+                // listener of the harness (16 cases, exhaustive)
+                if common::PRE_VIOLATION.lock().unwrap().is_none() {
+                    let cases = auth::worker_connector_cases();
+                    let mut done = 0usize;
+                    let mut skipped: Option<String> = None;
+                    for c in &cases {
+                        match auth::run_worker_connector_case(c) {
+                            Ok(ok) => {
+                                done += 1;
+                                if let Some((sig, detail)) = auth::worker_connector_verdict(c, ok) {
+                                    let dir = Path::new(common::VERIF_ROOT).join("replays").join("C20").join("found");
+                                    let _ = std::fs::create_dir_all(&dir);
+                                    let body = serde_json::to_string_pretty(&serde_json::json!({
+                                        "property": "C20", "seed": seed, "signature": sig, "detail": detail,
+                                        "case": {"worker_connector": [c.0, c.1]},
+                                    }))
+                                    .unwrap();
+                                    let path = dir.join(format!("wconnector-{:016x}.json", common::hash_str(&body)));
+                                    let _ = std::fs::write(&path, body);
+                                    *common::PRE_VIOLATION.lock().unwrap() =
+                                        Some((common::Violation { signature: sig, detail }, path));
+                                    break;
+                                }
+                            }
+                            Err(e) => {
+                                skipped = Some(e);
+                                break;
+                            }
+                        }
+                    }
+                    println!(
+                        "C20 worker connector: {done} of {} listener behaviours against the real worker connector{}",
+                        cases.len(),
+                        skipped.as_ref().map(|s| format!(" (incomplete: {s})")).unwrap_or_default()
+                    );
+                    if let Some(x) = common::EXTRA_COVERAGE.lock().unwrap().as_mut() {
+                        x["worker_connector"] = serde_json::json!({
+                            "what": "tako::comm::connect_to_server_and_authenticate (called by the worker's registration loop for every attempt) against a listener of the harness that closes, sends garbage, or answers as an honest endpoint without a key / with the worker's key / with another key / with the roles of the client endpoint / with another protocol number; worker with and without a key; only the listener that proves key, roles and protocol may be accepted, and that one is accepted",
+                            "cases": done,
+                            "exhaustive": done == cases.len(),
+                            "skipped": skipped,
+                        });
+                    }
+                }
                 run_engine(Arc::new(auth::AuthEngine), tier, seed)
             } else if prop == "C19" {
                 run_engine(Arc::new(stream::StreamEngine), tier, seed)
@@ -565,7 +610,28 @@ fn main() {
                 .ok()
                 .and_then(|t| serde_json::from_str::<serde_json::Value>(&t).ok())
                 .and_then(|v| serde_json::from_value::<(bool, Vec<u8>)>(v["case"]["connector"].clone()).ok());
-            if let Some(c) = connector {
+            let wconnector: Option<auth::WorkerConnectorCase> = std::fs::read_to_string(path)
+                .ok()
+                .and_then(|t| serde_json::from_str::<serde_json::Value>(&t).ok())
+                .and_then(|v| serde_json::from_value::<(bool, u8)>(v["case"]["worker_connector"].clone()).ok());
+            if let Some(c) = wconnector {
+                match auth::run_worker_connector_case(&c) {
+                    Ok(ok) => {
+                        if let Some((sig, detail)) = auth::worker_connector_verdict(&c, ok) {
+                            println!("VIOLATION property=C20 replay={}", path.display());
+                            println!("  signature: {sig}\n  detail: {detail}");
+                            1
+                        } else {
+                            println!("no violation of C20 in this replay (worker ok={ok})");
+                            0
+                        }
+                    }
+                    Err(e) => {
+                        println!("INCONCLUSIVE: {e}");
+                        2
+                    }
+                }
+            } else if let Some(c) = connector {
                 match auth::run_connector_case(&c) {
                     Ok((ok, seen)) => {
                         if let Some((sig, detail)) = auth::connector_verdict(&c, ok, seen) {
